@@ -88,7 +88,7 @@ impl<'w> Gen for Gen11<'w> {
         let it = *rng.pick(&its);
         Some(match rng.weighted(&[35, 30, 6, 8]) {
             0 => Op::Next { it },
-            1 => Op::PeekN { it, n: rng.below(6) },
+            1 => Op::PeekN { it, n: gen_peek_n(rng) },
             2 => Op::SetModeIter { it, mode: rng.below(self.m.n_modes(it)) },
             _ => Op::SetOffset { it, offset: self.m.pick_boundary(rng, it, None) },
         })
